@@ -187,63 +187,3 @@ extern "C" void harness_c10_traits() {
   }
   WITNESS();
 }
-
-#ifdef C10_PROBE
-extern "C" void harness_c10_probe() {
-  t_void = new CPPSimpleType(CPPSimpleType::T_void);
-  CPPIdentifier *ident = new CPPIdentifier(std::string("A"));
-  ASSERT(ident->_names.size() == 1, "C10 probe names size");
-  ASSERT(ident->_names.back()._name.size() == 1, "C10 probe name length");
-  CPPScope *scope = new CPPScope(nullptr, CPPNameComponent("A"), V_private);
-  CPPStructType *A = new CPPStructType(CPPExtensionType::T_class, ident, nullptr, scope, CPPFile());
-  ASSERT(A->_ident == ident, "C10 probe ident");
-  ASSERT(A->_ident->_names.size() == 1, "C10 probe names size 2");
-#if C10_PROBE >= 2
-  std::string n = A->get_simple_name();
-  ASSERT(n.size() == 1, "C10 probe simple name length");
-#endif
-#if C10_PROBE >= 3
-  CPPInstance *dc = add_function(scope, "A", new CPPParameterList, CPPFunctionType::F_constructor, 0, A_PUBLIC);
-  ASSERT(scope->_functions.size() == 1, "C10 probe map size");
-  ASSERT(A->_ident->_names.size() == 1, "C10 probe names size 3");
-  std::string n2 = A->get_simple_name();
-  ASSERT(n2.size() == 1, "C10 probe simple name length 2");
-#endif
-#if C10_PROBE == 4
-  ASSERT(A->get_constructor() != nullptr, "C10 probe get_constructor");
-#endif
-#if C10_PROBE == 5
-  ASSERT(scope->_functions.begin()->first.size() == 1, "C10 probe key length");
-  ASSERT(scope->_functions.begin()->first[0] == 'A', "C10 probe key char");
-#endif
-#if C10_PROBE == 6
-  ASSERT(scope->_functions.begin()->first.compare(n2) == 0, "C10 probe key compare");
-#endif
-#if C10_PROBE == 7
-  ASSERT(scope->_functions.find(n2) != scope->_functions.end(), "C10 probe find");
-#endif
-  WITNESS();
-}
-#endif
-
-#ifdef C10_PROBE2
-static volatile int sink;
-extern "C" void harness_c10_probe2() {
-  std::string a("A");
-  for (size_t i = 0; i < a.size(); i++) sink++;                       // loop A
-  std::vector<CPPNameComponent> v;
-  v.push_back(CPPNameComponent(a));
-  for (size_t i = 0; i < v.size(); i++) sink++;                       // loop B
-  for (size_t i = 0; i < v.back()._name.size(); i++) sink++;          // loop C
-  std::string b = v.back()._name;
-  for (size_t i = 0; i < b.size(); i++) sink++;                       // loop D
-#if C10_PROBE2 >= 2
-  CPPIdentifier *ident = new CPPIdentifier(std::string("A"));
-  for (size_t i = 0; i < ident->_names.size(); i++) sink++;            // loop E
-  for (size_t i = 0; i < ident->_names.back()._name.size(); i++) sink++;   // loop F
-  std::string c = ident->get_simple_name();
-  for (size_t i = 0; i < c.size(); i++) sink++;                       // loop G
-#endif
-  WITNESS();
-}
-#endif
